@@ -1,6 +1,7 @@
 package http
 
 import (
+	"bytes"
 	"context"
 	"encoding/json"
 	"expvar"
@@ -506,8 +507,25 @@ func (s *Server) handlePostTx(w http.ResponseWriter, r *http.Request) {
 	}
 	defer unpin()
 
-	// Wrap request body in a chunked reader.
-	ltxPath, err := db.WriteLTXFileAt(r.Context(), r.Body)
+	// A forwarded transaction must extend the current position exactly, even
+	// when it is shaped like a snapshot (which is otherwise accepted at any
+	// position so that a database can be restored).
+	hdrBuf := make([]byte, ltx.HeaderSize)
+	var hdr ltx.Header
+	if _, err := io.ReadFull(r.Body, hdrBuf); err != nil {
+		Error(w, r, fmt.Errorf("read ltx header: %w", err), http.StatusBadRequest)
+		return
+	} else if err := hdr.UnmarshalBinary(hdrBuf); err != nil {
+		Error(w, r, fmt.Errorf("decode ltx header: %w", err), http.StatusBadRequest)
+		return
+	}
+	if pos := db.Pos(); hdr.MinTXID != pos.TXID+1 || hdr.PreApplyChecksum != pos.PostApplyChecksum {
+		Error(w, r, fmt.Errorf("ltx file (%s,%s) does not extend position %s", hdr.MinTXID.String(), hdr.PreApplyChecksum, pos), http.StatusConflict)
+		return
+	}
+
+	// Copy the transaction file into place.
+	ltxPath, err := db.WriteLTXFileAt(r.Context(), io.MultiReader(bytes.NewReader(hdrBuf), r.Body))
 	if err != nil {
 		Error(w, r, fmt.Errorf("write ltx file: %s", err), http.StatusInternalServerError)
 		return
